@@ -8,9 +8,10 @@ package PKG
 
 import (
 	"go/token"
-	"strings"
 	"unicode"
 )
+
+//@ use join
 
 //@ extern func token.IsIdentifier(name string) (ok bool)
 //@   pure
@@ -18,11 +19,8 @@ import (
 //@   pure
 //@ extern func unicode.ToLower(r rune) (u rune)
 //@   pure
-//@ extern func strings.Join(elems []string, sep string) (r string)
-//@   pure
 
 var (
 	_ = token.IsIdentifier
 	_ = unicode.ToUpper
-	_ = strings.Join
 )
